@@ -142,8 +142,23 @@ def signal_listeners(ctx, rule):
             for a in origins(sw, op):
                 if a.kind == "call" and sw.blocks[a.data].term.callee.is_("tokio::signal::unix::Signal::recv"):
                     for b2 in origins(sw, sw.blocks[a.data].term.args[0], VALUE_CALLS + ("core::ops::try_trait::Try::branch", "core::result::Result::map_err")):
-                        if b2.kind == "call" and sw.blocks[b2.data].term.callee.is_("tokio::signal::unix::signal"):
-                            for c3 in origins(sw, sw.blocks[b2.data].term.args[0]):
+                        if b2.kind != "call":
+                            continue
+                        lt = sw.blocks[b2.data].term
+                        kind_arg = None
+                        if lt.callee.is_("tokio::signal::unix::signal"):
+                            kind_arg = lt.args[0]
+                        elif (lt.callee.def_ or "").startswith("watchexec::"):
+                            # a helper of this crate that registers the listener: the parameter it hands to tokio's signal() is the kind
+                            hf = facts.find_fn(strip_generics(lt.callee.def_)) or facts.find_fn(lt.callee.def_)
+                            if hf is not None:
+                                for _, ht in hf.calls():
+                                    if ht.callee.is_("tokio::signal::unix::signal"):
+                                        for ho in origins(hf, ht.args[0]):
+                                            if ho.kind == "arg" and not ho.proj and 1 <= ho.data <= len(lt.args):
+                                                kind_arg = lt.args[ho.data - 1]
+                        if kind_arg is not None:
+                            for c3 in origins(sw, kind_arg):
                                 if c3.kind == "call":
                                     k = strip_generics(sw.blocks[c3.data].term.callee.def_).split("::")[-1]
             kinds.append(k)
